@@ -193,6 +193,70 @@ def miri(ctx):
     return res
 
 
+def fuzz(ctx):
+    """coverage-guided workload source (libFuzzer + ASan, debug assertions and overflow checks on). The fuzz
+    targets carry the same oracles as the monitors; every crash artifact is re-judged by the verdict build
+    with this property's own monitor before it counts."""
+    target = "file" if ctx["pid"] == "C01" else "stream"
+    fdir = os.path.join(ctx["verif"], "fuzz")
+    corpus = os.path.join(ctx["work"], "corpus")
+    art = os.path.join(ctx["work"], "artifacts") + "/"
+    os.makedirs(art, exist_ok=True)
+    subprocess.run([ctx["pfv"], "corpus", corpus, "--seed", str(ctx["seed"]), "--nshards", "300"],
+                   stdout=subprocess.DEVNULL, stderr=subprocess.DEVNULL)
+    secs = int(os.environ.get("VERIF_FUZZ_S", "240"))
+    t = time.time()
+    b = subprocess.run(["cargo", "+nightly", "fuzz", "build", "--fuzz-dir", fdir, target], cwd=HARNESS, env=_env(),
+                       stdout=subprocess.PIPE, stderr=subprocess.STDOUT, text=True)
+    if b.returncode != 0:
+        return dict(report={"status": "build failed"}, inconclusive=["fuzz: build failed: %s" % b.stdout[-400:]])
+    cmd = ["cargo", "+nightly", "fuzz", "run", "--fuzz-dir", fdir, target, os.path.join(corpus, target), "--",
+           "-max_total_time=%d" % secs, "-fork=%d" % ctx["jobs"], "-ignore_crashes=1", "-ignore_timeouts=1", "-ignore_ooms=1",
+           "-timeout=20", "-rss_limit_mb=4096", "-max_len=65536", "-artifact_prefix=" + art, "-print_final_stats=1"]
+    try:
+        p = subprocess.run(cmd, cwd=HARNESS, env=_env(), stdout=subprocess.PIPE, stderr=subprocess.STDOUT, text=True,
+                           timeout=secs + 900)
+        out = p.stdout
+    except subprocess.TimeoutExpired as ex:
+        out = (ex.stdout or b"").decode(errors="replace") if isinstance(ex.stdout, bytes) else (ex.stdout or "")
+    execs = 0
+    for m in re.finditer(r"#(\d+): cov: (\d+) ft: (\d+)", out):
+        execs = max(execs, int(m.group(1)))
+    cov = re.findall(r"cov: (\d+) ft: (\d+)", out)
+    arts = sorted(os.listdir(art))
+    rep = {"status": "ran", "target": target, "seconds": secs, "executions": execs, "wall_s": round(time.time() - t, 1),
+           "final_cov_ft": cov[-1] if cov else None, "artifacts": len(arts), "artifacts_confirmed_by_verdict_build": 0}
+    res = dict(report=rep, counters={"evaluations": execs, "fuzz_executions": execs}, violations=[])
+    seen = set()
+    for a in arts[:200]:
+        ap = os.path.join(art, a)
+        j = os.path.join(ctx["work"], "fuzzjudge.journal")
+        if os.path.exists(j):
+            os.remove(j)
+        q = subprocess.run([ctx["pfv"], "judge", ctx["pid"], ap, "--journal", j, "--replay-dir", ctx["replays"]],
+                           stdout=subprocess.DEVNULL, stderr=subprocess.DEVNULL)
+        viol, done, _ = _journal_stats(j)
+        for v in viol:
+            rep["artifacts_confirmed_by_verdict_build"] += 1
+            if v["signature"] in seen:
+                continue
+            seen.add(v["signature"])
+            keep = os.path.join(ctx["replays"], ctx["pid"], "fuzz-" + a)
+            os.makedirs(os.path.dirname(keep), exist_ok=True)
+            try:
+                import shutil
+                shutil.copy(ap, keep)
+            except Exception:
+                pass
+            v["what"] = "(found by the coverage-guided stage) " + v.get("what", "")
+            res["violations"].append(v)
+        if not viol and q.returncode not in (0, 1):
+            if q.returncode == 97 or q.returncode < 0:
+                res["violations"].append({"sub": "process_death", "signature": "fuzz_process_death|%s" % q.returncode,
+                                          "what": "verdict build died (%s) on fuzz artifact %s" % (q.returncode, a), "replay": ap})
+    return res
+
+
 LLVM_BIN = os.path.expanduser("~/.rustup/toolchains/nightly-x86_64-unknown-linux-gnu/lib/rustlib/x86_64-unknown-linux-gnu/bin")
 
 
@@ -270,5 +334,6 @@ STAGES = {
         COV,
     ],
 }
+FUZZ = dict(name="coverage_guided_fuzzing", tiers=("thorough",), fn=fuzz)
 for _p in ["C01", "C02", "C03", "C04", "C05", "C06", "C07", "C08", "C09", "C10", "C11", "C13"]:
-    STAGES[_p] = [COV]
+    STAGES[_p] = ([FUZZ] if _p in ("C01", "C02", "C03", "C05", "C07") else []) + [COV]
